@@ -100,6 +100,7 @@ class C10Kernel(Machine):
                 "antennas": ants, "events": events, "loop": rng.chance(0.5),
                 "writer": rng.pick(["none", "recording", "real", "real"]),
                 "triggers": rng.pick(["none", "func", "dict"]),
+                "dict_global": rng.pick(["any", "all", "never"]),
                 "offcone_max": rng.pick([None, 40, 40, 10, 1.5]),
                 "weight_min": rng.pick([None, None, 1e-2, [1e-2, 1e-4], [0.0, 1e-5]]),
                 "att_interp": rng.pick([None, 0.1, 0.5]),
@@ -248,8 +249,14 @@ class C10Kernel(Machine):
         if trig == "func":
             self.trigger_funcs = lambda det: any(a.is_hit for a in det)
         elif trig == "dict":
-            self.trigger_funcs = {"global": lambda det: any(a.is_hit for a in det),
-                                  "first": lambda det: bool(det[0].is_hit)}
+            # component verdicts that the global one does not imply (coincidence / vetoed global)
+            glob = {"any": lambda det: any(a.is_hit for a in det),
+                    "all": lambda det: all(a.is_hit for a in det),
+                    "never": lambda det: False}[cfg.get("dict_global", "any")]
+            self.trigger_funcs = {"global": glob,
+                                  "first": lambda det: bool(det[0].is_hit),
+                                  "last": lambda det: bool(det[len(det) - 1].is_hit),
+                                  "always": lambda det: True}
         else:
             self.trigger_funcs = None
         wm = cfg["weight_min"]
@@ -425,7 +432,7 @@ class C10Kernel(Machine):
         sig_before = [len(a.signals) for a in self.antennas]
         gen = self.gen
         exhausted_expected = False
-        if cfg["generator"] == "list" and not cfg["loop"] and gen._index >= len(gen.events):
+        if cfg["generator"] == "list" and not cfg["loop"] and self.events_drawn >= len(self.list_events):
             exhausted_expected = True
         count_before = gen.count
         writer_fault_armed = self.writer_fault and self.writer is not None
@@ -456,6 +463,7 @@ class C10Kernel(Machine):
             elif self.last_event is not None and self._tracer_fails_like(res):
                 # the ray tracer itself cannot handle this geometry (C01/C02 territory)
                 self.count("probe.tracer_failure")
+                self.events_drawn += 1
                 return ["event", "tracer-failure", type(res).__name__]
             else:
                 raise Violation("unexpected-exception:%s@kernel.event" % type(res).__name__,
@@ -495,8 +503,10 @@ class C10Kernel(Machine):
             else:
                 event, triggered_ret = res
         # the generator's event
+        if event is not self.last_event:
+            raise Violation("C10:wrong-event", "kernel.event() did not return the event its generator produced")
         if cfg["generator"] == "list":
-            want_ev = self.list_events[(gen._index - 1) % len(self.list_events)]
+            want_ev = self.list_events[(self.events_drawn - 1) % len(self.list_events)]
             if event is not want_ev:
                 raise Violation("C10:wrong-event", "kernel.event() did not return the generator's event")
         particles = list(event)
